@@ -146,16 +146,16 @@ Definition gen_add (ty : dtype) (g : gmap) (node : str) (d : deleg) : res gmap :
 (* the delegations one pool contributes: its definition on the defining node, a reference on every node
    of for_ *)
 Definition pool_events (ty : dtype) (did : str) (p : pool) : res (list (str * deleg)) :=
+  bind (new_deleg ty did FDef (Some (p_id p))) (fun pd0 =>       (* reserved pool name: DelegationException *)
   match p_details p with
   | None => Err EAssertion                            (* set_details: assert caporlab is not None *)
   | Some x =>
-      bind (new_deleg ty did FDef (Some (p_id p))) (fun pd0 =>
       bind (set_details pd0 x) (fun pd =>
       match p_on p with
       | None => Err EUnmodelled                       (* only validated pools are in the index *)
       | Some on => Ok ((on, pd) :: map (fun n => (n, mkD ty did FRef (Some (p_id p)) None)) (p_for p))
-      end))
-  end.
+      end)
+  end).
 
 Fixpoint gen_events (ty : dtype) (g : gmap) (evs : list (str * deleg)) : res gmap :=
   match evs with
@@ -241,7 +241,7 @@ End WithValidators.
 (* exceptions of generate                                                                            *)
 (* ---------------------------------------------------------------------------------------------- *)
 Definition pool_ok (ty : dtype) (p : pool) : bool :=
-  dtype_eqb (p_type p) ty &&
+  dtype_eqb (p_type p) ty && str_neqb (p_id p) single_pool_name &&
   match p_deleg p, p_on p, p_for p, p_details p with
   | Some _, Some o, _ :: _, Some x =>
       dtype_eqb (det_kind x) ty && str_nodup (p_for p) && negb (str_mem o (p_for p))
@@ -302,11 +302,10 @@ Definition pools_equiv (A B : list pool) : Prop :=
 Definition pool_nodes (P : list pool) : list str :=
   flat_map (fun p => match p_on p with Some o => o :: p_for p | None => p_for p end) P.
 
-(* pools whose definitions to_json can encode and from_json reads back as definitions: a pool name other
-   than the reserved SINGLE_POOL_NAME, details built by the constructor with at least one field to show *)
+(* pools whose definitions to_json can encode: details built by the constructor with at least one field to
+   show *)
 Definition pools_encodable (lab_check : str -> dval -> option exn) (P : list pool) : bool :=
-  forallb (fun p => str_neqb (p_id p) single_pool_name &&
-                    match p_details p with Some x => det_ok lab_check x && det_nonempty x | None => false end) P.
+  forallb (fun p => match p_details p with Some x => det_ok lab_check x && det_nonempty x | None => false end) P.
 
 (* single-pool delegations on nodes of their own (the `dels` argument of annotate) *)
 Definition single_only (ds : delegations) : bool :=
